@@ -295,7 +295,7 @@ def run_schedule(rp, choices, drain=True):
     return obs, done, rec, quiet
 
 
-def run_bulk(rp, tasks):
+def run_bulk(rp, tasks, watch_at_put=False):
     """the real Popen.work on a bulk [(uid, launch fails, exit code)], then the processes exit and the
     watcher makes its passes (no interference between threads: the intake finishes first)"""
     import radical.pilot.agent.executing.popen as popen_mod
@@ -332,6 +332,19 @@ def run_bulk(rp, tasks):
     saved = (popen_mod.sp.Popen, ru.ru_open)
     popen_mod.sp.Popen = fake_popen
     ru.ru_open = lambda *a, **k: _F()
+    to_watch = []
+    if watch_at_put:
+        # the watcher thread is scheduled at the very moment a launched task is queued for it: it drains the queue and
+        # makes a pass over what it watches before the intake thread does anything else
+        class WQ(queue.Queue):
+            def put(self_, item, *a, **k):
+                queue.Queue.put(self_, item, *a, **k)
+                try:
+                    while True: to_watch.append(queue.Queue.get_nowait(self_))
+                except queue.Empty:
+                    pass
+                p._check_running(to_watch)
+        p._watch_queue = WQ()
     ctl = coop.Controller()
     try:
         def intake():
@@ -344,7 +357,6 @@ def run_bulk(rp, tasks):
         codes = {'task.%06d' % u: c for u, f, c in tasks}
         for uid, f in procs.items():
             f.code = codes[uid]
-        to_watch = []
         def watcher():
             try:
                 while True: to_watch.append(p._watch_queue.get_nowait())
@@ -405,6 +417,12 @@ def bulk_part(ctx, rp):
         bad = bulk_monitor(b, evs)
         if bad:
             ctx.fail(bad[0], bad[1], {'kind': 'bulk', 'tasks': [list(x) for x in b]}, observed=evs)
+        if len(ops) % 4 == 1:
+            evs2 = run_bulk(rp, b, watch_at_put=True)
+            bad = bulk_monitor(b, evs2)
+            if bad:
+                ctx.fail('launch-window:' + bad[0], bad[1] + ' (the watcher makes a pass at the moment each launched task is queued for it)',
+                         {'kind': 'bulk', 'tasks': [list(x) for x in b], 'watch_at_put': True}, observed=evs2)
     common.compare(ctx, 'exec', ops, impl, what='real Popen.work on bulks with unlaunchable tasks + watcher pass: events in order')
 
 
@@ -511,7 +529,7 @@ def replay(ctx, data):
         return timeoutsuite.replay(ctx, data, 'C07')
     if data['input'].get('kind') == 'bulk':
         b = [tuple(x) for x in data['input']['tasks']]
-        evs = run_bulk(rp, b)
+        evs = run_bulk(rp, b, watch_at_put=bool(data['input'].get('watch_at_put')))
         bad = bulk_monitor(b, evs)
         print(evs, bad)
         return not bad
